@@ -611,6 +611,84 @@ def gen_batch(ck, rng, n_base, n_two, n_dir, site_hist, n_sorted=60, n_known=3):
 
     cases += directed_known(rng, n_known)
     cases += directed_shared(ck, rng)
+    cases += directed_boundaries(ck, rng)
+    return cases
+
+
+def directed_boundaries(ck, rng):
+    """two general families whose meaning depends on what a let / into / module boundary separates:
+    (J) a join whose right columns nothing reads afterwards (the left columns are declared by an explicit select, so the
+        continuation can name them bare): the join still multiplies / keeps rows, whether the prefix that ends in it is named
+        or written inline; left, inner and right-column-reading controls;
+    (S) a column NAME that is declared twice in one pipeline with a sort on it before and after the re-declaration
+        (`derive {xs = ..} | sort {-xs} | take n | derive {xs = ..} | select {.., xs} | sort {-xs} | take m`): the second sort
+        is about the second column, with or without a boundary between the two."""
+    cases = []
+    S = W.RStep
+    tcols = P.TABLES["t"]
+
+    def tq(q, c):
+        return "ECol (Some %d%%N) %d%%N" % (P.nid(q), P.nid(c))
+    for _ in range(ck.n(4, 10)):
+        side, sd = rng.choice([("LeftJ", "side:left "), ("LeftJ", "side:left "), ("Inner", "")])
+        key = rng.choice(["g", "a"])
+        on_p, on_c = "(t.%s == u.%s)" % (key, key), "EBin Eq (%s) (%s)" % (tq("t", key), tq("u", key))
+        pre = []
+        if rng.random() < 0.4:
+            f = S("filter", expr=("bin", "Or", ("bin", "Ne", _col("c"), ("lit", rng.choice([0, 1, 3]))), ("isnull", _col("c"), False)))
+            pre.append(P.Step("filter", f.prql(), f.coq()))
+        pre.append(P.Step("select", "select {%s}" % ", ".join(tcols), "TSelect [%s]" % "; ".join("(None, ECol None %d%%N)" % P.nid(c) for c in tcols)))
+        join = P.Step("join", "join %su %s" % (sd, on_p), "TJoin %s %d%%N U_COLS U_TABLE (%s)" % (side, P.nid("u"), on_c), side=side)
+        read_right = rng.random() < 0.25
+        keep = ["b", "c"] + (["d"] if read_right else [])
+        rest = []
+        k = rng.random()
+        if k < 0.4:
+            f = S("filter", expr=("bin", "Or", ("bin", "Ge", _col("b"), ("lit", 0)), ("isnull", _col("b"), False)))
+            rest.append(P.Step("filter", f.prql(), f.coq()))
+        elif k < 0.7:
+            d_ = S("derive", items=[("xj", ("bin", "Add", _col("b"), _col("c")))])
+            rest.append(P.Step("derive", d_.prql(), d_.coq()))
+            keep = keep + ["xj"]
+        sel = S("select", items=[(None, _col(c)) for c in keep])
+        rest.append(P.Step("select", sel.prql(), sel.coq(), final=True))
+        pg = P.Program(pre + [join] + rest, False, keep, {"order": None, "key_pos": None, "outer_right": False})
+        c = make_case(pg, [P.gen_instance(rng, max_rows=6, min_rows=4), P.gen_instance(rng, max_rows=5, min_rows=3)])
+        rp = W.from_program(pg)
+        for lab, q in W.sites_let(rp, rng) + W.sites_identity(rp, rng, kinds=("filter-true", "derive-empty", "take-open")):
+            kd = W.kind_of(lab)
+            c.add(kd, lab, q.prql(), None)
+            if kd == "let" and lab.startswith("let@"):
+                for lab2, q2 in W.sites_module(q, rng, depth2=False):
+                    c.add("module", lab + "+" + lab2, q2.prql())
+        cases.append(c)
+    for _ in range(ck.n(4, 10)):
+        n1, n2 = rng.choice([("a", "b"), ("b", "c"), ("c", "g"), ("g", "a")])
+        d1 = rng.random() < 0.7
+        d2 = d1 if rng.random() < 0.8 else not d1
+        e1 = ("bin", "Add", _col(n1), _col(n2))
+        e2 = ("bin", rng.choice(["Sub", "Mul"]), _col(n2), _col(n1))
+        keep = ["id"] + ([n1] if rng.random() < 0.5 else [])
+        steps = [S("derive", items=[("xs", e1)]),
+                 S("sort", keys=[(d1, _col("xs")), (False, _col("id"))]),
+                 S("take", raw="take %d" % rng.randint(3, 5), coq=None)]
+        steps[-1].coq_text = "TTake None (Some (%s))" % steps[-1].raw.split()[1]
+        steps[-1].info = {"rng": (None, int(steps[-1].raw.split()[1]))}
+        if rng.random() < 0.5:
+            steps += [S("derive", items=[("xs", e2)]), S("select", items=[(None, _col(c)) for c in keep + ["xs"]])]
+        else:
+            steps += [S("select", items=[(None, _col(c)) for c in keep] + [("xs", e2)])]
+        steps += [S("sort", keys=[(d2, _col("xs")), (False, _col("id"))]), S("take", raw="take 2", coq="TTake None (Some (2))", info={"rng": (None, 2)})]
+        pg = W.directed_program(steps, True, keep + ["xs"])
+        c = make_case(pg, [P.gen_instance(rng, max_rows=6, min_rows=5), P.gen_instance(rng, max_rows=6, min_rows=4)])
+        rp = W.from_program(pg)
+        for lab, q in W.sites_let(rp, rng) + W.sites_identity(rp, rng, kinds=("filter-true", "derive-empty")):
+            kd = W.kind_of(lab)
+            c.add(kd, lab, q.prql(), None)
+            if kd == "let" and lab.startswith("let@"):
+                for lab2, q2 in W.sites_module(q, rng, depth2=False, decoy=False):
+                    c.add("module", lab + "+" + lab2, q2.prql())
+        cases.append(c)
     return cases
 
 
